@@ -58,6 +58,9 @@ type FuncContract struct {
 	Lets        []LetDef
 	Relies      []*Clause
 	Ghosts      []GhostUpdate
+	ParamNames  []string // interface contracts: parameter names of the method
+	Implements  []string // interface contracts (keys) this function must refine
+	InlineCalls []string // callees (by name pattern) whose body is executed in place in this function
 	File        string
 	Line        int
 	Used        bool
@@ -90,7 +93,7 @@ type Contracts struct {
 var clauseKeywords = map[string]bool{
 	"pred": true, "func": true, "prop": true, "requires": true, "ensures": true, "modifies": true,
 	"loop": true, "pure": true, "inline": true, "trusted": true, "assert": true, "assume": true, "after": true,
-	"let": true, "rely": true, "expect-obligations": true, "iface": true, "nobody": true, "ghostmap": true, "ghost": true,
+	"implements": true, "let": true, "rely": true, "expect-obligations": true, "iface": true, "nobody": true, "ghostmap": true, "ghost": true,
 }
 
 var tagRe = regexp.MustCompile(`^\[([^\]]*)\]\s*`)
@@ -273,8 +276,11 @@ func (c *Contracts) parseFile(path, pkgPath string) error {
 			if strings.HasPrefix(short, "ext:") { // external function: full key given
 				key = strings.TrimPrefix(short, "ext:")
 			}
-			if strings.HasPrefix(short, "iface:") { // interface method: iface:<type string>.<Method>
+			if strings.HasPrefix(short, "iface:") { // interface method: iface:[<pkg>.]<Type>.<Method>
 				key = short
+				if strings.Count(short, ".") == 1 {
+					key = "iface:" + pkgPath + "." + strings.TrimPrefix(short, "iface:")
+				}
 			}
 			if strings.HasPrefix(short, "fnparam:") { // spec of a function-typed parameter: fnparam:<func>.<param>
 				key = "fnparam:" + pkgPath + "." + strings.TrimPrefix(short, "fnparam:")
@@ -294,10 +300,20 @@ func (c *Contracts) parseFile(path, pkgPath string) error {
 			for _, w := range strings.FieldsFunc(r.text, func(r rune) bool { return r == ',' || r == ' ' }) {
 				cur.Props = append(cur.Props, w)
 			}
+		case "implements":
+			k := strings.TrimSpace(r.text)
+			if strings.HasPrefix(k, "iface:") && strings.Count(k, ".") == 1 {
+				k = "iface:" + pkgPath + "." + strings.TrimPrefix(k, "iface:")
+			}
+			cur.Implements = append(cur.Implements, k)
 		case "pure":
 			cur.Pure = true
 		case "inline":
-			cur.Inline = true
+			if strings.HasPrefix(strings.TrimSpace(r.text), "call ") {
+				cur.InlineCalls = append(cur.InlineCalls, strings.TrimSpace(strings.TrimPrefix(strings.TrimSpace(r.text), "call ")))
+			} else {
+				cur.Inline = true
+			}
 		case "trusted":
 			cur.Trusted = true
 		case "nobody":
@@ -447,4 +463,15 @@ func (fc *FuncContract) clauseProps(cl *Clause) []string {
 		return cl.Props
 	}
 	return fc.Props
+}
+
+// lookup finds the contract of a function key, falling back to the generic (uninstantiated) key.
+func (c *Contracts) lookup(key string) *FuncContract {
+	if fc := c.Funcs[key]; fc != nil {
+		return fc
+	}
+	if g := stripTypeArgs(key); g != key {
+		return c.Funcs[g]
+	}
+	return nil
 }
